@@ -74,7 +74,7 @@ def neutral_edits(pkg: Pkg, r):
     p = copy.deepcopy(pkg)
     recs = [d for d in p.defs if isinstance(d, Rec)]
     for d in recs:
-        nums = [fn for fn, ft in d.fields if isinstance(ft, P) and ft.name in INT_PRIMS]
+        nums = [fn for fn, ft in d.fields if isinstance(ft, P) and ft.name in ("int8", "int16", "int32")]
         vecs = [fn for fn, ft in d.fields if isinstance(ft, V)]
         d.computed = [("cfOne", "1")] + [("cfSum%d" % i, "%s + 1" % fn) for i, fn in enumerate(nums[:2])] + [("cfSize%d" % i, "size(%s)" % fn) for i, fn in enumerate(vecs[:1])]
     if recs:
